@@ -1,8 +1,10 @@
 // C18: the code that actually exercises xsimd::aligned_allocator<T, Align> (real code under test).
 #pragma once
+#include <type_traits>
 #include "client.hpp"
 
 #include <complex>
+#include <cstdlib>
 #include <cstring>
 #include <new>
 #include <vector>
@@ -14,6 +16,32 @@
 
 namespace c18
 {
+    // allocator of the reference-model vectors: the real heap, with the alignment the element type needs
+    template <class T>
+    struct ModelAlloc
+    {
+        using value_type = T;
+        ModelAlloc() = default;
+        template <class U>
+        ModelAlloc(const ModelAlloc<U>&) noexcept
+        {
+        }
+        T* allocate(size_t n)
+        {
+            void* p = nullptr;
+            if (n > SIZE_MAX / sizeof(T) || posix_memalign(&p, alignof(T) < sizeof(void*) ? sizeof(void*) : alignof(T), n * sizeof(T)) != 0)
+                throw std::bad_alloc();
+            return static_cast<T*>(p);
+        }
+        void deallocate(T* p, size_t) noexcept { free(p); }
+        template <class U>
+        bool operator==(const ModelAlloc<U>&) const noexcept { return true; }
+        template <class U>
+        bool operator!=(const ModelAlloc<U>&) const noexcept { return false; }
+    };
+    template <class T>
+    using ModelVec = std::vector<T, ModelAlloc<T>>;
+
     template <class T>
     inline T make_elem(uint64_t c)
     {
@@ -36,7 +64,7 @@ namespace c18
         using Vec = std::vector<T, AA>;
         const char* name;
         Vec *v0 = nullptr, *v1 = nullptr;
-        std::vector<T> m0, m1; // reference model (real heap)
+        ModelVec<T> m0, m1; // reference model (real heap; honours alignof(T) even before C++17's aligned new)
         uint64_t elem_counter = 0;
 
         explicit ClientImpl(const char* n)
@@ -152,13 +180,13 @@ namespace c18
             return n; // number of live buffers
         }
 
-        static bool same(const Vec& v, const std::vector<T>& m)
+        static bool same(const Vec& v, const ModelVec<T>& m)
         {
             if (v.size() != m.size())
                 return false;
             return v.empty() || memcmp((const void*)v.data(), (const void*)m.data(), v.size() * sizeof(T)) == 0;
         }
-        std::string audit(const Vec& v, const std::vector<T>& m, const char* which) const
+        std::string audit(const Vec& v, const ModelVec<T>& m, const char* which) const
         {
             if (!same(v, m))
                 return std::string("vector-contents: ") + which + " differs from the reference vector";
@@ -272,18 +300,29 @@ namespace c18
         PredOutcome predicates(const void*) const override { return PredOutcome(); }
     };
 
+    // an allocator whose Align is smaller than alignof(T) hands out storage in which no T may live (the compiler may use aligned moves
+    // on it), so for over-aligned element types only Align >= alignof(T) is instantiated
+    template <class T, size_t Align>
+    inline typename std::enable_if<(Align >= alignof(T))>::type add_client(std::vector<ClientBase*>& out, const char* name)
+    {
+        out.push_back(new ClientImpl<T, Align>(name));
+    }
+    template <class T, size_t Align>
+    inline typename std::enable_if<(Align < alignof(T))>::type add_client(std::vector<ClientBase*>&, const char*)
+    {
+    }
     template <class T>
     inline void make_all_aligns(std::vector<ClientBase*>& out, const char* name)
     {
-        out.push_back(new ClientImpl<T, 8>(name));
-        out.push_back(new ClientImpl<T, 16>(name));
-        out.push_back(new ClientImpl<T, 32>(name));
-        out.push_back(new ClientImpl<T, 64>(name));
-        out.push_back(new ClientImpl<T, 128>(name));
-        out.push_back(new ClientImpl<T, 256>(name));
-        out.push_back(new ClientImpl<T, 512>(name));
-        out.push_back(new ClientImpl<T, 1024>(name));
-        out.push_back(new ClientImpl<T, 2048>(name));
-        out.push_back(new ClientImpl<T, 4096>(name));
+        add_client<T, 8>(out, name);
+        add_client<T, 16>(out, name);
+        add_client<T, 32>(out, name);
+        add_client<T, 64>(out, name);
+        add_client<T, 128>(out, name);
+        add_client<T, 256>(out, name);
+        add_client<T, 512>(out, name);
+        add_client<T, 1024>(out, name);
+        add_client<T, 2048>(out, name);
+        add_client<T, 4096>(out, name);
     }
 }
